@@ -123,6 +123,13 @@ spec("C16", "Statistics are exact", [P, T], [
     (T, "hit_ratio_spec", None),
 ])
 
+spec("C17", "Valid calls never panic or kill a background worker", ["InvProofs", "PanicProofs"], [
+    ("PanicProofs", "valid_calls_never_panic", None), ("PanicProofs", "valid_runs_never_panic", None), ("PanicProofs", "still_serves", None),
+    ("PanicProofs", "C17_refuted_remove_ttl_small_weight", "known_finding_remove_ttl_small_weight"),
+    ("PanicProofs", "C17_refuted_ttl_overflow", "known_finding_ttl_overflow"),
+    ("SketchProofs", "counters_1_no_panic", "one_counter_sketch_no_panic"),
+])
+
 if __name__ == "__main__":
     for pid in (sys.argv[1:] or sorted(SPEC)):
         emit(pid, *SPEC[pid])
